@@ -247,28 +247,39 @@ func StorageParams(e *Env) storagetypes.Params {
 // GovSetStorageParams stores p the way governance would: every key whose value differs is updated through the
 // subspace.  Values a key's validator refuses are written through the keeper instead (harnesses also explore
 // values governance cannot reach); returns true when everything went the governance way.
+// storageParamKeys: the names a parameter-change proposal uses for the storage module's parameters, written out here
+// (not read from the code's ParamSetPairs: a proposal author names "CollateralPrice", whatever the code pairs it with).
+var storageParamKeys = map[string]string{
+	"DepositAccount": "DepositAccount", "ProofWindow": "ProofWindow", "ChunkSize": "ChunkSize", "MissesToBurn": "MissesToBurn",
+	"PriceFeed": "PriceFeed", "MaxContractAgeInBlocks": "MaxContractAgeInBlocks", "PricePerTbPerMonth": "PricePerTbPerMonth",
+	"AttestFormSize": "AttestFormSize", "AttestMinToPass": "AttestMinToPass", "CollateralPrice": "CollateralPrice",
+	"CheckWindow": "CheckWindow", "PolRatio": "POLRatio", "ReferralCommission": "Referrals",
+}
+
 func GovSetStorageParams(e *Env, p storagetypes.Params) bool {
 	_ = e.App.StorageKeeper.GetParams(e.Ctx) // a running node has read its parameters before a proposal passes
 	ss, _ := paramsKeeperOf(e).GetSubspace(storagetypes.ModuleName)
 	cur := StorageParams(e)
-	cp, np := cur.ParamSetPairs(), p.ParamSetPairs()
+	cv, nv := reflect.ValueOf(cur), reflect.ValueOf(p)
 	ok := true
-	for i := range np {
-		a, _ := json.Marshal(reflect.ValueOf(cp[i].Value).Elem().Interface())
-		b, _ := json.Marshal(reflect.ValueOf(np[i].Value).Elem().Interface())
+	for i := 0; i < nv.NumField(); i++ {
+		key, known := storageParamKeys[nv.Type().Field(i).Name]
+		if !known {
+			continue
+		}
+		a, _ := json.Marshal(cv.Field(i).Interface())
+		b, _ := json.Marshal(nv.Field(i).Interface())
 		if string(a) == string(b) {
 			continue
 		}
 		// amino JSON: int64 values are strings
-		v := reflect.ValueOf(np[i].Value).Elem()
-		var js []byte
+		v := nv.Field(i)
+		js := b
 		if v.Kind() == reflect.Int64 {
 			js = []byte(fmt.Sprintf("%q", fmt.Sprint(v.Int())))
-		} else {
-			js = b
 		}
 		var err error
-		if pn := Guard(func() { err = ss.Update(e.Ctx, np[i].Key, js) }); pn != "" || err != nil {
+		if pn := Guard(func() { err = ss.Update(e.Ctx, []byte(key), js) }); pn != "" || err != nil {
 			ok = false
 		}
 	}
